@@ -2,6 +2,8 @@ package main
 
 import (
 	"fmt"
+	"os"
+	"path/filepath"
 	"strings"
 )
 
@@ -506,6 +508,37 @@ func init() {
 			c06Variant("enum_as_int_32", "enum_as_int_32"),
 			c06Variant("golint", "naming_style=golint"),
 			c06Variant("apache", "naming_style=apache"),
+		},
+	})
+}
+
+func init() {
+	hs := []Harness{
+		{Func: "H_C09_new_to_old", Covers: []string{"end"}},
+		{Func: "H_C09_old_to_new", Covers: []string{"end"}},
+		{Func: "H_C09_chain", Covers: []string{"end"}},
+	}
+	register(&Prop{
+		ID:        "C09",
+		Functions: []string{"generated Read/Write of two schema versions (harness/c09gen old.thrift, new.thrift)", "default branch of the Read switch (Skip)", "apache thrift TBinaryProtocol.Skip (interpreted)"},
+		Bounds:    "one designed pair (old, new): new adds an optional scalar, a default struct field, a map of lists, an optional double with default, an optional struct at the root; an optional string and a list inside a nested struct (also reached through list elements and map values); a union arm; an enum member. All scalar leaves of the newer value symbolic (full width), presence of every added/optional member symbolic, containers of length 1; chains new->old, old->new, new->old->new->old",
+		Assumptions: []string{"the (old,new) pairs dimension is this one designed pair", "keep_unknown_fields round trip is checked in variant 'keep' when the reflective protocol adapter can be executed"},
+		Variants: []*Prop{
+			{Label: "default", Pkg: "zzgen/c09/all", NoOverlay: true, Diff: []string{"D_C09_1"}, Harnesses: hs, Prepare: func(r *runner) error {
+				return prepareStatic(r, "c09gen", []string{"all.thrift", "old.thrift", "new.thrift"}, "go", "", "c09/all")
+			}},
+			{Label: "keep", Pkg: "zzgen/c09/all", NoOverlay: true, Diff: []string{"D_C09_1"},
+				Harnesses: append(append([]Harness{}, hs...), Harness{Func: "H_C09_keep", Covers: []string{"end"}}, Harness{Func: "H_C09_keep_none", Covers: []string{"end"}}),
+				Prepare: func(r *runner) error {
+					if err := prepareStatic(r, "c09gen", []string{"all.thrift", "old.thrift", "new.thrift"}, "go", "keep_unknown_fields", "c09/all"); err != nil {
+						return err
+					}
+					b, err := os.ReadFile("/verif/harness/c09keep/hk.go")
+					if err != nil {
+						return err
+					}
+					return os.WriteFile(filepath.Join(r.dir, "c09/all/zz_hk.go"), b, 0o644)
+				}},
 		},
 	})
 }
